@@ -68,6 +68,7 @@ func cmdVerify(args []string) int {
 	to := fs.Int("timeout", 10, "solver timeout seconds")
 	dump := fs.String("dump", "", "dump SMT of obligation whose name contains this")
 	lem := fs.Bool("lemmas", false, "verify all lemmas too")
+	verbose := fs.Bool("v", false, "show trivial safety obligations")
 	fs.Parse(args)
 	e, err := LoadEngine([]string{".", "./terminfo", "./views"}, nil)
 	if err != nil {
@@ -98,9 +99,15 @@ func cmdVerify(args []string) int {
 				mark = "!! "
 				rc = 1
 			}
+			if g.Status == "trivial" && strings.Contains(g.Kind, "safety") && !*verbose {
+				continue
+			}
 			fmt.Printf("  %s%-9s %-70s x%d %s %.2fs %s\n", mark, g.Status, g.Name, len(g.Instances), g.Solver, g.Secs, g.Src)
 			if g.Status == "failed" {
 				for _, k := range sortedKeys(g.Model) {
+					if strings.HasPrefix(k, "havoc.") || strings.HasPrefix(k, "ret") {
+						continue
+					}
 					fmt.Printf("        %s = %s\n", k, g.Model[k])
 				}
 			}
